@@ -224,6 +224,11 @@ impl Ctx {
         let _ = self.out.flush();
     }
 
+    /// Total number of findings reported so far by this shard (all signatures).
+    pub fn findings_reported(&self) -> u64 {
+        self.finding_counts.values().sum()
+    }
+
     pub fn count(&mut self, name: &str, n: u64) {
         *self.counts.entry(name.to_string()).or_insert(0) += n;
     }
